@@ -324,6 +324,7 @@ def _pairing(repo, col, R="R-C08-pairing"):
     """Values and row indices of external inputs are extended in the same order."""
     from . import c19
     c19.pair_delete(repo, col, R)
+    c19.delete_scope(repo, col, R)
     from sa.terms import canon as _canon
 
     def alts(t, guards):
